@@ -699,9 +699,15 @@ def run_node(c):
     if bad:
         return answers, bad
     if c['start'] == 'load':
-        want_n = sum(1 for k in c['kids'] if not isinstance(k, str))
-        if len(rn.node.transforms) != want_n:
-            return answers, (0, 'loading', 'loaded node has %d transforms, the file has %d' % (len(rn.node.transforms), want_n))
+        elems = [k for k in c['kids'] if not isinstance(k, str)]
+        if len(rn.node.transforms) != len(elems):
+            return answers, (0, 'loading', 'loaded node has %d transforms, the file has %d' % (len(rn.node.transforms), len(elems)))
+        # document order: the i-th loaded transform means what the i-th transform element of the file says
+        for i, (k, m) in enumerate(zip(elems, answers[0][2])):
+            wrong = oracle_tf(dict(k, type='tf', route='load'), ('ok', flat(m)))
+            if wrong:
+                return answers, (0, 'loading', 'transform %d of the loaded node is not what element %d of the file (<%s>%s) means: %s'
+                                 % (i, i, TAG[k['k']], k['text'].strip(), wrong[0][1]))
     for i, op in enumerate(c['ops']):
         try:
             out = rn.apply(op)
@@ -719,13 +725,16 @@ def run_node(c):
 
 def case_specs(c):
     """every transform spec a node case mentions"""
-    out = [dict((k, v) for k, v in s.items() if k != 'text') for s in c['tfs']]
+    if c['start'] == 'load':
+        out = [dict(k, type='tf', route='load') for k in c['kids'] if not isinstance(k, str)]
+    else:
+        out = [dict(s, type='tf', route='ctor') for s in c['tfs']]
     for op in c['ops']:
         for x in op[1:]:
             if isinstance(x, dict):
-                out.append(x)
+                out.append(dict(x, type='tf', route='ctor'))
             elif isinstance(x, list):
-                out.extend(x)
+                out.extend(dict(y, type='tf', route='ctor') for y in x)
     return out
 
 
@@ -912,11 +921,10 @@ def check_node(ctx, c, model, reported):
         if msg:
             # failing-input search seeded from the diverging case: does one of its transforms break its own oracle?
             found = False
-            for s in case_specs(c):
-                tc = dict(s, type='tf', route='ctor')
+            for tc in case_specs(c):
                 for aspect, what in oracle_tf(tc, real_tf(tc)):
                     found = True
-                    tsig = 'tf:%s:%s' % (s['k'], aspect)
+                    tsig = 'tf:%s:%s' % (tc['k'], aspect)
                     if tsig not in reported:
                         reported.add(tsig)
                         ctx.violation(tsig, what, dict(kind='oracle', case=tc))
